@@ -327,14 +327,16 @@ theorem buildSchema_rt (inArray : Bool) (s : Schema) (hwf : schemaWFField inArra
     · cases rules with
       | none => simp [buildSchema, normSchema]
       | some r => simp at h1
-  | date lr =>
+  | date rules lr =>
     simp only [buildField, Outcome.ok.injEq] at ha
     subst ha
-    cases lr <;> simp [buildSchema, listPayload, normSchema]
-  | decimal lr =>
+    subst hj
+    cases inArray <;> cases rules <;> cases lr <;> simp_all [buildSchema, listPayload, normSchema, schemaWFField]
+  | decimal rules lr =>
     simp only [buildField, Outcome.ok.injEq] at ha
     subst ha
-    cases lr <;> simp [buildSchema, listPayload, normSchema]
+    subst hj
+    cases inArray <;> cases rules <;> cases lr <;> simp_all [buildSchema, listPayload, normSchema, schemaWFField]
   | timestamp hasRules lr =>
     simp only [buildField, Outcome.ok.injEq] at ha
     subst ha
@@ -470,8 +472,8 @@ theorem hasItemConstraint_eq (s : Schema) (a : ItemAnnot) (ha : buildField s = .
   | object r f hr => simp only [buildField, Outcome.ok.injEq] at ha; subst ha; cases hr <;> rfl
   | oneof r hr lr => simp only [buildField, Outcome.ok.injEq] at ha; subst ha; cases hr <;> rfl
   | timestamp hr lr => simp only [buildField, Outcome.ok.injEq] at ha; subst ha; cases hr <;> rfl
-  | date lr => simp only [buildField, Outcome.ok.injEq] at ha; subst ha; rfl
-  | decimal lr => simp only [buildField, Outcome.ok.injEq] at ha; subst ha; rfl
+  | date rules lr => simp only [buildField, Outcome.ok.injEq] at ha; subst ha; rfl
+  | decimal rules lr => simp only [buildField, Outcome.ok.injEq] at ha; subst ha; rfl
   | any od t lr => simp only [buildField, Outcome.ok.injEq] at ha; subst ha; rfl
 
 theorem field_roundtrip (p : Property) (h : WFField p = true) : roundtrip p = .ok (normField p) := by
